@@ -124,6 +124,9 @@ async fn scenario(w: World, case_seed: u64, n_inject: usize, disabled: Vec<usize
         }
         let _ = std::fs::write(&progress, format!("{case} {k} {class} {}", vcore::hex(&bytes[..len.min(4096)])));
         out.last = (k, class, vcore::hex(&bytes[..len.min(4096)]));
+        if std::env::var("C06_DUMP").is_ok() {
+            eprintln!("inject #{k} class {} dst {dst} leading {} : {}", CLASSES[class], grams.len(), vcore::hex(&bytes[..len.min(4096)]));
+        }
         sim.take_alloc_window();
         // multi-datagram classes: the leading datagrams go in back to back, the last one is the announced one
         for (i, g) in grams.into_iter().enumerate() {
@@ -233,6 +236,15 @@ async fn scenario(w: World, case_seed: u64, n_inject: usize, disabled: Vec<usize
         sim.sleep(200 * MS).await;
     }
     let got = got_c.min(got_a);
+    if std::env::var("C06_DUMP").is_ok() {
+        let ma = dw_a.get_matched_subscriptions().await.map(|v| v.len());
+        let mc = dw_c.get_matched_subscriptions().await.map(|v| v.len());
+        let ra = dr_a.get_matched_publications().await.map(|v| v.len());
+        let rc = dr_c.get_matched_publications().await.map(|v| v.len());
+        let da = parts[0].0.get_discovered_participants().await.map(|v| v.len());
+        let dc = dpc.get_discovered_participants().await.map(|v| v.len());
+        eprintln!("afterwards: got_c={got_c} got_a={got_a} writes={s} matched: dw_a={ma:?} dw_c={mc:?} dr_a={ra:?} dr_c={rc:?} discovered participants: victim={da:?} fresh={dc:?} net={:?}", w.net.counters());
+    }
     out.delivery_ok = got >= 3;
     out
 }
